@@ -420,6 +420,17 @@ def SR.groupsL : List SR → List String
   | s :: ss => SR.groups s ++ SR.groupsL ss
 end
 
+mutual
+/-- what the JSON schema (`schema/v2/submission-requirement.json`, see `fact_sr_schema`) guarantees about a parsed
+    submission requirement: rule `all`/`pick`, `count ≥ 1`, exactly one of `from` / `from_nested` (non-empty) -/
+def SR.wf : SR → Bool
+  | .mk _ rule count _ _ frm nested =>
+    (rule == "all" || rule == "pick") && count != some 0 && ((frm != "") != (!nested.isEmpty)) && SR.wfL nested
+def SR.wfL : List SR → Bool
+  | [] => true
+  | s :: ss => SR.wf s && SR.wfL ss
+end
+
 /-! ### Match -/
 
 /-- the credential loop of `matchConstraints` for one descriptor -/
